@@ -200,6 +200,7 @@ func runEnc(prop string, seed uint64, tier, dir string) error {
 			v, term, kind = m, fmt.Sprintf("(EMsg %d %s)", xid, t), "msg:"+k
 		case which < 7:
 			a, t := g.action(2)
+			g.flushLate()
 			v, term, kind = a, "(EAct "+t+")", "element:action"
 		case which == 7:
 			f, t := g.mf()
